@@ -20,7 +20,7 @@ ASSUMPTIONS = [
     'references carry two resolutions; unconverged cases are counted as inconclusive cases',
 ]
 REQUIRED = {t: ['domain:UnitSquare', 'domain:PiSquare', 'domain:LShape', 'datum:one', 'datum:sine', 'time:starts-at-0', 'time:later', 'time:early-small',
-                'level>=4', 'rel:linearity', 'rel:additivity-time', 'rel:additivity-space', 'rel:direct-reference', 'fn:evaluate',
+                'level>=4', 'rel:linearity', 'rel:additivity-time', 'rel:additivity-space', 'rel:direct-reference', 'fn:evaluate', 'fn:linform_vector',
                 'piece:long-side-half']
             for t in ('quick', 'thorough')}
 TIMEOUT = {'quick': 1500, 'thorough': 7200}
@@ -340,6 +340,29 @@ def run_rel(spec, acc):
             if fr is None:
                 raise
             acc.violation('linform-raised:%s:%s' % (fr[0], type(ex).__name__), '%s: raised %s at %s:%d' % (domain, type(ex).__name__, fr[1], fr[2]), w)
+    # (2b) the vector of loads: entry i is the load of element i, whatever the order of the list, the path or the cache state
+    import shutil
+    import tempfile
+    from .. import env
+    cdir = tempfile.mkdtemp(prefix='c08-cache-', dir=env.scratch_root())
+    try:
+        leaves = [e for e in bmesh.leaf_elements][:6]
+        opv = InitialOperator(bmesh, fams['quad'], initial_mesh=factory, cache_dir=cdir)
+        single = {id(e): InitialOperator(bmesh, fams['quad'], initial_mesh=factory).linform(e)[0] for e in leaves}
+        for oname, order in (('creation', leaves), ('reversed', list(reversed(leaves))), ('creation-again', leaves), ('rotated', leaves[2:] + leaves[:2])):
+            vec = opv.linform_vector(order, use_mp=False)
+            acc.case('%s|vector|%s' % (domain, oname), None)
+            acc.seen('fn:linform_vector')
+            if len(vec) != len(order) or any(float(v) != single[id(e)] for v, e in zip(vec, order)):
+                acc.violation('load-vector-entry-mismatch', '%s: linform_vector on the %s list does not return the load of element i at position i' % (domain, oname),
+                              {'domain': domain, 'order': oname})
+    except Exception as ex:
+        fr = repo_frame(ex)
+        if fr is None:
+            raise
+        acc.violation('linform-vector-raised:%s' % type(ex).__name__, '%s: raised at %s:%d' % (domain, fr[1], fr[2]), {'domain': domain})
+    finally:
+        shutil.rmtree(cdir, ignore_errors=True)
     # (3) pointwise evaluate vs exact potential, t >= 0.05 side^2
     data = [('one', (lambda xy: np.ones(xy.shape[1])), pot_one(domain))]
     if domain != 'LShape':
